@@ -63,7 +63,12 @@ Definition check_C12 (op : bytes) (input impl : arg) : arg :=
         else if negb (bytes_eqb fp ref) then AS "fingerprint is not the SHA-1 of the RFC 4880 12.2 input"
         else if negb (bytes_eqb kid (drop 12 fp)) then AS "key ID is not the low 64 bits of the fingerprint"
         else if negb (bytes_eqb kids (hex_of true (drop 12 fp))) then AS "key ID string is not the upper-case hex of the key ID"
-        else AL []
+        else
+          (* the attributes, when the harness says which key it wrote: (fpr algo oid bits created) *)
+          match arg_nth 2 (arg_nth 2 input) with
+          | AL (_ :: _) as kr => verdict (key_attrs_ok kr (map attr_of_arg (arg_list attrs)))
+          | _ => AL []
+          end
     | _ => if wf then AS "well-formed key packet rejected" else AL []
     end
   else if bytes_eqb op (bs "sigattrs") then
